@@ -1,12 +1,230 @@
 package main
 
-import "strings"
+import (
+	"math"
+	"strconv"
+	"strings"
+)
 
-// Executable class predicates of the open known findings. A predicate looks at the recorded case and at the
-// implementation's outputs for it (f.Impl of the first probe).
+// CNode is a parsed canonical tree (the format of impl.CanonExpr), used by the class predicates of the known findings.
+type CNode struct {
+	Kind  string // nil | prim | expr | list | bound | other
+	Prim  string // s:<hex> i:<n> f:<bits> b:0/1 c:<hex> opaque
+	Op    int
+	L, R  *CNode
+	Elems []*CNode
+	Incl  bool
+}
+
+func canonToks(s string) []string {
+	s = strings.ReplaceAll(s, "(", "( ")
+	s = strings.ReplaceAll(s, ")", " )")
+	return strings.Fields(s)
+}
+
+func parseCNode(t []string, i int) (*CNode, int) {
+	if i >= len(t) {
+		return &CNode{Kind: "other"}, i
+	}
+	switch {
+	case t[i] == "nil" || t[i] == "nilptr":
+		return &CNode{Kind: "nil"}, i + 1
+	case t[i] == "(" && i+1 < len(t) && t[i+1] == "E":
+		n := &CNode{Kind: "expr"}
+		n.Op, _ = strconv.Atoi(t[i+2])
+		j := i + 3
+		n.L, j = parseCNode(t, j)
+		n.R, j = parseCNode(t, j)
+		return n, j + 3 // boost, fuzzy, ")"
+	case t[i] == "(" && i+1 < len(t) && t[i+1] == "L":
+		n := &CNode{Kind: "list"}
+		j := i + 2
+		for j < len(t) && t[j] != ")" {
+			var e *CNode
+			e, j = parseCNode(t, j)
+			n.Elems = append(n.Elems, e)
+		}
+		return n, j + 1
+	case t[i] == "(" && i+1 < len(t) && t[i+1] == "B":
+		n := &CNode{Kind: "bound"}
+		j := i + 2
+		n.L, j = parseCNode(t, j)
+		n.R, j = parseCNode(t, j)
+		if j < len(t) {
+			n.Incl = t[j] == "b:1"
+		}
+		return n, j + 2
+	default:
+		return &CNode{Kind: "prim", Prim: t[i]}, i + 1
+	}
+}
+
+// ParseCanon parses "ok:<tree>" or "<tree>".
+func ParseCanon(s string) *CNode {
+	s = strings.TrimPrefix(s, "ok:")
+	if !strings.HasPrefix(s, "(") {
+		return nil
+	}
+	n, _ := parseCNode(canonToks(s), 0)
+	return n
+}
+
+// Walk visits every node.
+func (n *CNode) Walk(f func(*CNode)) {
+	if n == nil {
+		return
+	}
+	f(n)
+	n.L.Walk(f)
+	n.R.Walk(f)
+	for _, e := range n.Elems {
+		e.Walk(f)
+	}
+}
+
+func (n *CNode) any(pred func(*CNode) bool) bool {
+	found := false
+	n.Walk(func(x *CNode) {
+		if pred(x) {
+			found = true
+		}
+	})
+	return found
+}
+
+func (n *CNode) leafPrim() string {
+	if n != nil && n.Kind == "expr" && n.L != nil && n.L.Kind == "prim" {
+		return n.L.Prim
+	}
+	return ""
+}
+
+func hexLen(p string) int { return (len(p) - 2) / 2 }
+
+func primStr(p string) (string, bool) {
+	if strings.HasPrefix(p, "s:") || strings.HasPrefix(p, "c:") {
+		s, err := hexDecode(p[2:])
+		return s, err == nil
+	}
+	return "", false
+}
+
+func floatOf(p string) (float64, bool) {
+	if !strings.HasPrefix(p, "f:") {
+		return 0, false
+	}
+	u, err := strconv.ParseUint(p[2:], 16, 64)
+	return math.Float64frombits(u), err == nil
+}
+
+// isRange: operator Range (iota 6) with a boundary on the right
+func isRange(n *CNode) bool {
+	return n.Kind == "expr" && n.Op == 6 && n.R != nil && n.R.Kind == "bound"
+}
+
+func treeOf(f *Failure) *CNode { return ParseCanon(f.Impl["P"]) }
+
+func hasTag(c *Case, tag string) bool {
+	for _, t := range strings.Split(c.Aux, ",") {
+		if t == tag {
+			return true
+		}
+	}
+	return false
+}
+
+func boundIs(n *CNode, pred func(mn, mx *CNode, incl bool) bool) bool {
+	return n.any(func(x *CNode) bool { return isRange(x) && pred(x.R.L, x.R.R, x.R.Incl) })
+}
+
+func isStarWild(n *CNode) bool {
+	return n != nil && n.Kind == "expr" && n.Op == 12 && n.leafPrim() == "s:2a"
+}
+func isQuotedStar(n *CNode) bool {
+	return n != nil && n.Kind == "expr" && n.Op == 11 && n.leafPrim() == "s:2a"
+}
+func isStrLeaf(n *CNode) bool {
+	return n != nil && n.Kind == "expr" && strings.HasPrefix(n.leafPrim(), "s:") && !isStarWild(n)
+}
+func isFloatLeaf(n *CNode) bool { return n != nil && strings.HasPrefix(n.leafPrim(), "f:") }
+func needsFine(n *CNode) bool {
+	f, ok := floatOf(n.leafPrim())
+	if !ok {
+		return false
+	}
+	return strconv.FormatFloat(f, 'f', 2, 64) != strconv.FormatFloat(f, 'f', -1, 64) && f*100 != math.Trunc(f*100)
+}
+
+// Executable class predicates of the open known findings (mirrored as comments in known_findings.json).  A predicate
+// looks at the recorded case and at the implementation's outputs for it (f.Impl of the first probe).
 func init() {
-	// K-negzero: the parsed tree holds a float64 leaf that is negative zero (query text such as -0.0, -0e5)
-	classPredicates["negzero-float-leaf"] = func(c *Case, f *Failure) bool {
-		return strings.Contains(f.Impl["P"], " f:8000000000000000 ") || strings.Contains(f.Impl["P"], "(E 11 f:8000000000000000 ")
+	cp := classPredicates
+	// K-negzero: the parsed tree holds a float64 leaf that is negative zero (query text such as -0.0)
+	cp["negzero-float-leaf"] = func(c *Case, f *Failure) bool {
+		return treeOf(f).any(func(x *CNode) bool { return x.Kind == "prim" && x.Prim == "f:8000000000000000" })
+	}
+	// ranges (C03 / C04): judged on the parsed tree, so that they apply to every generator
+	cp["range-str-excl"] = func(c *Case, f *Failure) bool {
+		return hasTag(c, "range-mixed") || boundIs(treeOf(f), func(mn, mx *CNode, incl bool) bool { return !incl && (isStrLeaf(mn) || isStrLeaf(mx)) })
+	}
+	cp["range-str-open"] = func(c *Case, f *Failure) bool {
+		return boundIs(treeOf(f), func(mn, mx *CNode, incl bool) bool {
+			return (isStarWild(mn) && isStrLeaf(mx)) || (isStarWild(mx) && isStrLeaf(mn))
+		})
+	}
+	cp["range-float-round"] = func(c *Case, f *Failure) bool {
+		return boundIs(treeOf(f), func(mn, mx *CNode, incl bool) bool { return needsFine(mn) || needsFine(mx) })
+	}
+	cp["range-both-open"] = func(c *Case, f *Failure) bool {
+		return boundIs(treeOf(f), func(mn, mx *CNode, incl bool) bool { return isStarWild(mn) && isStarWild(mx) })
+	}
+	cp["range-float-open"] = func(c *Case, f *Failure) bool {
+		return boundIs(treeOf(f), func(mn, mx *CNode, incl bool) bool {
+			return (isStarWild(mn) && isFloatLeaf(mx)) || (isStarWild(mx) && isFloatLeaf(mn))
+		})
+	}
+	cp["range-comma"] = func(c *Case, f *Failure) bool {
+		return boundIs(treeOf(f), func(mn, mx *CNode, incl bool) bool {
+			has := func(n *CNode) bool { s, ok := primStr(n.leafPrim()); return ok && strings.Contains(s, ",") }
+			return has(mn) || has(mx)
+		})
+	}
+	cp["range-mixed"] = func(c *Case, f *Failure) bool { return hasTag(c, "range-mixed") }
+	cp["range-quoted-star"] = func(c *Case, f *Failure) bool {
+		return boundIs(treeOf(f), func(mn, mx *CNode, incl bool) bool { return isQuotedStar(mn) || isQuotedStar(mx) })
+	}
+	// K-range-mixed-kind: one bound is a number, the other a string
+	cp["range-mixed-kind"] = func(c *Case, f *Failure) bool {
+		isNumLeaf := func(n *CNode) bool { p := n.leafPrim(); return strings.HasPrefix(p, "i:") || strings.HasPrefix(p, "f:") }
+		return boundIs(treeOf(f), func(mn, mx *CNode, incl bool) bool {
+			return (isNumLeaf(mn) && isStrLeaf(mx)) || (isNumLeaf(mx) && isStrLeaf(mn))
+		})
+	}
+	// K-like-meta: a wildcard pattern containing a SIMILAR TO metacharacter besides the translated * and ?
+	cp["like-meta"] = func(c *Case, f *Failure) bool {
+		return treeOf(f).any(func(x *CNode) bool {
+			if x.Kind != "expr" || x.Op != 12 {
+				return false
+			}
+			s, ok := primStr(x.leafPrim())
+			return ok && strings.ContainsAny(s, `_%|+()[]{}\`)
+		})
+	}
+	// K-numfield-range: a numeric-looking field name under a range (the left side of a Range node is a number leaf)
+	cp["numfield-range"] = func(c *Case, f *Failure) bool {
+		return treeOf(f).any(func(x *CNode) bool {
+			return isRange(x) && (strings.HasPrefix(x.L.leafPrim(), "i:") || strings.HasPrefix(x.L.leafPrim(), "f:"))
+		})
+	}
+	// K-ident-63: a field name longer than 63 bytes
+	cp["ident-63"] = func(c *Case, f *Failure) bool {
+		return treeOf(f).any(func(x *CNode) bool { return x.Kind == "prim" && strings.HasPrefix(x.Prim, "c:") && hexLen(x.Prim) > 63 })
+	}
+	// K-escape-wild / K-escape-backslash (C08 escaping clause): the text contains * or ? / a backslash
+	cp["escape-wild"] = func(c *Case, f *Failure) bool { return c.Rel == "escaped" && strings.ContainsAny(c.Want, "*?") }
+	cp["escape-backslash"] = func(c *Case, f *Failure) bool { return c.Rel == "escaped" && strings.Contains(c.Want, `\`) }
+	// K-dangling-escape (C09): one spelling ends in a backslash
+	cp["dangling-escape"] = func(c *Case, f *Failure) bool {
+		return strings.HasSuffix(strings.TrimRight(c.S, " \t\r\n"), `\`) || strings.HasSuffix(strings.TrimRight(c.S2, " \t\r\n"), `\`)
 	}
 }
